@@ -290,6 +290,69 @@ def latedir_case(item):
     return res
 
 
+def samecmd_case(item):
+    """Several targets handled by one redo process while the set of rules changes between their look-ups: the script of the first
+    target installs a higher-priority default rule (a bootstrap rule), or the chosen rule removes itself.  Each look-up must see the
+    candidates that exist at that moment (first existing one wins), as redo-whichdo does afterwards."""
+    variant, how, ext, sub, seed = item
+    pj = scen.Project({}, 'c13s')
+    top = os.path.realpath(pj.top)
+    anoms = []
+    obs = dict(commands=0)
+    try:
+        d = 'd1/' if sub else ''
+        if sub:
+            os.makedirs(os.path.join(top, 'd1'))
+        first, second = d + 'first.' + ext, d + 'second.' + ext
+        hi = 'default.%s.do' % ext
+        body = 'printf \'%%s\\n\' "ID=%s" "A1=$1" "A2=$2" > "$3"\n'
+        if variant == 'installs':
+            # default.do serves the first target and leaves default.<ext>.do behind for everything that comes later
+            common.write_file(posixpath.join(top, 'default.do'),
+                              'case "$1" in all) redo-ifchange %s %s; exit 0;; esac\n' % (first, second) +
+                              '[ -e %s ] || printf \'%%s\\n\' \'printf "%%s\\n" "ID=high" "A1=$1" "A2=$2" > "$3"\' > %s\n' % (hi, hi) + body % 'low')
+            want = {first: ('low', first, first), second: ('high', second, second[:-len(ext) - 1])}
+        else:
+            common.write_file(posixpath.join(top, 'default.do'), 'case "$1" in all) redo-ifchange %s %s; exit 0;; esac\n' % (first, second) + body % 'low')
+            common.write_file(posixpath.join(top, hi), 'rm -f %s\n' % hi + body % 'high')
+            want = {first: ('high', first, first[:-len(ext) - 1]), second: ('low', second, second)}
+        if how == 'ifchange':
+            argv = ['redo-ifchange', first, second]
+        elif how == 'redo':
+            argv = ['redo', first, second]
+        else:
+            argv = ['redo-ifchange', 'all']
+        r, _ = pj.run(argv, cwd=top, verif_log=False)
+        obs['commands'] += 1
+        for a in scen.crash_anoms(r, '', 'c13'):
+            anoms.append(dict(key='c13-' + a['key'], what=a['what']))
+        if r.rc != 0:
+            anoms.append(dict(key='build-failed:rules-change-within-a-command:%s' % variant, what='%s exited %s: %s' % (argv, r.rc, r.err[-300:].replace('\n', ' | '))))
+        else:
+            for t, (ident, a1, a2) in want.items():
+                b = (common.read_file(posixpath.join(top, t)) or b'').decode('utf-8', 'replace')
+                kv = dict(l.split('=', 1) for l in b.split('\n') if '=' in l)
+                if (kv.get('ID'), kv.get('A1'), kv.get('A2')) != (ident, a1, a2):
+                    anoms.append(dict(key='script-choice:rules-change-within-a-command:%s' % variant,
+                                      what='%s (%s): %s says ID=%s $1=%s $2=%s, the first existing candidate at its look-up gives ID=%s $1=%s $2=%s'
+                                           % (argv, variant, t, kv.get('ID'), kv.get('A1'), kv.get('A2'), ident, a1, a2)))
+            rw, _ = pj.run(['redo-whichdo', second], cwd=top, verif_log=False)
+            obs['commands'] += 1
+            last = [l for l in rw.out.split('\n') if l][-1:]
+            exp_last = hi if variant == 'installs' else 'default.do'
+            if not last or posixpath.basename(last[0]) != exp_last:
+                anoms.append(dict(key='whichdo-order:rules-change-within-a-command', what='redo-whichdo %s ends at %r, expected %s' % (second, last, exp_last)))
+    finally:
+        pj.close()
+    res = dict(verdict='violated' if anoms else 'held', nontrivial=True, shape=common.shash(list(item)),
+               sample=dict(kind='rules-change-within-a-command', variant=variant, how=how, ext=ext, sub=sub), obs=obs,
+               sets=dict(chosen_kinds=['within-command:' + variant]))
+    if anoms:
+        res['violations'] = anoms
+        res['replay'] = dict(kind='c13same', item=list(item))
+    return res
+
+
 def direct_case(item):
     """possible_do_files called directly vs the reference, for enumerated names."""
     alphabet, maxlen, depth = item
@@ -345,6 +408,8 @@ def dispatch(item):
         return outside_case(item[1:])
     if item[0] == 'latedir':
         return latedir_case(item[1:])
+    if item[0] == 'samecmd':
+        return samecmd_case(item[1:])
     return cmd_case(item[1:])
 
 
@@ -353,7 +418,7 @@ RULE = ('command level: target paths at depth 0-3 (directory names with a space 
         'spelled in 4-8 ways (./, x/../, //, absolute, from sub-directories); redo-whichdo output and the ID/$1/$2/$3/cwd echoed by the '
         'executed script are compared with an independent reference written from the property text; then one mutation (add a higher-priority '
         'candidate / remove the chosen one / repeat) and the comparison again; fresh projects whose first command runs in proj/sub and asks for '
-        '../other/<name> (rule 0-2 levels above the target, a decoy default.do in proj/sub); targets whose directory is created by the rule itself (mkdir -p) and gets a higher-priority rule afterwards. Direct level (clean and .././/-spelled paths): possible_do_files() for every basename over '
+        '../other/<name> (rule 0-2 levels above the target, a decoy default.do in proj/sub); targets whose directory is created by the rule itself (mkdir -p) and gets a higher-priority rule afterwards; two targets handled by one redo process (one command line, or one nested redo-ifchange) where the script of the first target installs a higher-priority default rule or the chosen rule removes itself: each look-up sees the candidates that exist at that moment. Direct level (clean and .././/-spelled paths): possible_do_files() for every basename over '
         'small alphabets up to a length bound x directory depth vs the same reference. Every case is non-trivial; distinct = parameter tuple.')
 ASSUME = ['ancestors of the scratch root contain no default*.do (checked at start-up)', 'targets whose spelling resolves to an existing directory are not generated']
 
@@ -379,6 +444,11 @@ def main(tier):
         for depth in (1, 2, 3):
             for where in ('specific', 'nearest', 'between'):
                 items.append(('latedir', n, depth, where, rnd.randrange(1000)))
+    for variant in ('installs', 'removes'):
+        for how in ('ifchange', 'redo', 'nested'):
+            for ext in (('x', 'tar.gz') if quick else ('x', 'tar.gz', 'a.b.c', 'y z')):
+                for sub in (False, True):
+                    items.append(('samecmd', variant, how, ext, sub, rnd.randrange(1000)))
     rnd.shuffle(items)
     items = [('direct', 'a.x', 5 if quick else 7, 2 if quick else 3), ('direct', 'ab. ', 4 if quick else 5, 2), ('direct', '.é-', 4 if quick else 6, 1)] + items
     deadline = time.time() + (75 if quick else 700)
@@ -399,7 +469,7 @@ def replay(path):
     d = json.load(open(path))
     common.ensure_built()
     it = d['replay']['item']
-    r = direct_case(tuple(it)) if d['replay']['kind'] == 'direct' else (outside_case(tuple(it)) if d['replay']['kind'] == 'c13out' else (latedir_case(tuple(it)) if d['replay']['kind'] == 'c13late' else cmd_case(tuple(it))))
+    r = samecmd_case(tuple(it)) if d['replay']['kind'] == 'c13same' else direct_case(tuple(it)) if d['replay']['kind'] == 'direct' else (outside_case(tuple(it)) if d['replay']['kind'] == 'c13out' else (latedir_case(tuple(it)) if d['replay']['kind'] == 'c13late' else cmd_case(tuple(it))))
     print(r.get('verdict'), r.get('violations'))
     common.cleanup_scratch()
     if r.get('verdict') == 'violated':
